@@ -27,6 +27,7 @@ type ReplayFile struct {
 	Stack    []string       `json:"stack,omitempty"`
 	NativeObservable bool   `json:"native_observable"`
 	Dirty            bool   `json:"reads_uninitialised_memory,omitempty"`
+	HashDep          bool   `json:"depends_on_hash_collision,omitempty"`
 }
 
 type KnownFinding struct {
@@ -258,6 +259,11 @@ func (nb *nativeBuilder) confirm(rf *ReplayFile, path string) (bool, bool, strin
 			break
 		}
 	}
+	if rf.HashDep {
+		// the counterexample needs particular hash values (a collision); the real hash of the model's
+		// strings under the native random seed is different, so a native run cannot reproduce it
+		return false, false, "depends on a hash collision chosen by the solver (native run: " + last + ")"
+	}
 	if rf.Dirty {
 		// the failing condition reads memory that dirtmake/mcache hand out uninitialised; a native run
 		// only reproduces it when the heap happens to hold garbage there
@@ -387,7 +393,7 @@ func finishRun(prop, tier string, seed int64, specs []*HarnessSpec, units []unit
 		seen[key] = true
 		spec := specByFn[v.Harness]
 		rf := &ReplayFile{Property: prop, Harness: v.Harness, Pkg: spec.Pkg, Params: unitParams[fmt.Sprintf("%p", v)], Draws: v.Draws,
-			Kind: v.Kind, Msg: v.Msg, Site: v.Site, Stack: v.Stack, Expect: v.Kind + ": " + v.Msg, Dirty: v.Dirty}
+			Kind: v.Kind, Msg: v.Msg, Site: v.Site, Stack: v.Stack, Expect: v.Kind + ": " + v.Msg, Dirty: v.Dirty, HashDep: v.HashDep}
 		b, _ := json.MarshalIndent(rf, "", " ")
 		h := sha1.Sum(b)
 		dir := filepath.Join(verifRoot(), "replays", prop)
